@@ -104,6 +104,60 @@ def corrupt_sink(run):
     return None
 
 
+def _flip(op, field):
+    def f(run):
+        for e in run:
+            if e.get("op") == op and isinstance(e.get(field), bool):
+                e[field] = not e[field]
+                return run
+        return None
+    return f
+
+
+def _bump(op, field):
+    def f(run):
+        for e in run:
+            if e.get("op") == op and isinstance(e.get(field), int) and not isinstance(e.get(field), bool):
+                e[field] = e[field] + 1
+                return run
+        return None
+    return f
+
+
+def refuse_total_read(run):
+    """an exact read that fits, on a back end where it cannot fail, turned into a refusal"""
+    for i, e in enumerate(run):
+        if e.get("op") == "read_exact" and e.get("api") == "exact" and len(e.get("got", [])) >= 1:
+            run[i] = {"op": "readn_refused", "api": "exact", "k": e["k"], "need": e["k"], "msg": "injected"}
+            return run
+    return None
+
+
+def corrupt_overwrite(run):
+    """a repositioned write lands one byte off: the sink differs inside the overwritten window"""
+    seen = False
+    for e in run:
+        if e.get("op") == "seekw":
+            seen = True
+        if seen and e.get("op") == "sink" and len(e.get("got", [])) >= 2:
+            e["got"] = list(e["got"])
+            e["got"][0], e["got"][1] = e["got"][1], (e["got"][0] + 1) % 256
+            return run
+    return None
+
+
+def _pick_with(files, key, needle):
+    """first trace file of a family that contains an event of the given kind"""
+    for p in sorted(f for f in files if key in os.path.basename(f)):
+        try:
+            with open(p) as fh:
+                if needle in fh.read():
+                    return p
+        except OSError:
+            pass
+    return None
+
+
 def _short(e, k=10):
     e = dict(e)
     for f in ("got", "data", "v", "batch", "scalar", "ob", "oa"):
@@ -158,6 +212,22 @@ def run(ctx):
         ctx.selftest_corrupt(TRACE, view, lose_view_byte, "a range reader loses one byte")
         if ctx.thorough:
             ctx.selftest_corrupt(TRACE, view, early_eof, "end of stream reported before the end of the range")
+    # one self-test per event kind of the coverage round
+    for key, needle, mut, what in (
+        ("wire-varint", '"op":"fits_in"', _flip("fits_in", "r"), "a fits-in-k-bytes predicate flipped"),
+        ("wire-ver", '"op":"ver_pred"', _flip("ver_pred", "r"), "a version predicate (supports / compatible / proxy range) flipped"),
+        ("wire-rd-range", '"op":"vlen"', _bump("vlen", "r"), "the reported length of a range off by one"),
+        ("wire-rd-range", '"op":"at_end"', _flip("at_end", "r"), "an is-at-end observer flipped"),
+        ("wire-rd-misc", '"api":"exact"', refuse_total_read, "a slice / mmap reader refuses an exact read that fits"),
+        ("wire-wr-", '"op":"seekw"', _bump("seekw", "r"), "the position reported by a repositioned writer off by one"),
+        ("wire-wr-", '"op":"seekw"', corrupt_overwrite, "a repositioned write lands at the wrong place in the sink"),
+        ("wire-wr-", '"op":"sink_pos"', _bump("sink_pos", "r"), "the position observer of a writer off by one"),
+        ("wire-wr-", '"op":"sink_remaining"', _bump("sink_remaining", "r"), "the remaining-room observer of a writer off by one"),
+    ):
+        f = _pick_with(files, key, needle)
+        if f is None:
+            raise vlib.ToolError("no trace file with %s for the self-test '%s'" % (needle, what))
+        ctx.selftest_corrupt(TRACE, f, mut, what)
     wr = _pick(files, "wire-wr-buffered") or _pick(files, "wire-wr-")
     if wr:
         ctx.selftest_corrupt(TRACE, wr, corrupt_sink, "the sink of a buffered writer differs from the accepted bytes")
@@ -192,7 +262,16 @@ def run(ctx):
                    "< 2^32, alternating 0/MAX, random, small); strings: empty, non-ASCII, 127/128/129/16383/16384/16385 bytes; "
                    "read programs: every sequence of 3 (buffer sizes 1,2,7,8; thorough 4) resp. 2 (4096) read sizes from "
                    "{1,2,3,b,b+1,2b+1} followed by a drain, plus seeded random programs over read / exact read / peek / skip / "
-                   "seek / position.  Distinct = distinct (subject, fingerprint of value or program); refused encodes (e.g. zigzag "
+                   "seek / position / at-end / length observers, each ending with the end-of-view probes (one byte too many must be "
+                   "refused without moving, an exact fit must succeed on slice / mmap / range readers, every observer one byte before "
+                   "and at the end).  Coverage round: size-class predicates (fits_in_one/two_bytes), named strategy / endianness "
+                   "constructors against ::new on the decoding side, byte-width boundaries 2^(8k) (prefix-free, group-varint selector "
+                   "widths), both sides of every threshold of choose_optimal_strategy(_signed), 2^21 length prefix, version predicates "
+                   "(supports / compatible / proxy range, judged by TLC), migrations (1 and 2 steps), context clear(), "
+                   "MemoryMappedInput x 5 constructors x 4 access patterns x sizes around 4 KiB and 1 MiB, SliceDataInput / "
+                   "MmapDataInput as views, stock ZeroCopyReader / StreamBufferedWriter / ZeroCopyWriter, repositioned writers "
+                   "(RangeWriter, StreamBufferedWriter, MemoryMappedOutput: overwrite inside the written image).  "
+                   "Distinct = distinct (subject, fingerprint of value or program); refused encodes (e.g. zigzag "
                    "of an unsigned value) and runs that moved no byte are not counted; vacuous subjects are listed.")
     for key in ("wire-varint-", "wire-encseq-0", "wire-dio-file", "wire-complex-", "wire-rd-buffered-7", "wire-rd-zerocopy_over", "wire-wr-range", "wire-ver-0"):
         p = _pick(files, key)
@@ -208,6 +287,8 @@ def run(ctx):
         "records as trailing bytes and must still return the value; whole-buffer APIs get exactly their record",
         "large generated streams are described to TLC by their generator (byte i = (i*a + i div 251) mod 256); TLC evaluates the same definition",
         "release profile without overflow checks (the behaviour users get); CPU with AVX2+BMI2, lower SIMD tiers cannot be forced",
+        "an exact read or skip that fits may be refused by buffering readers (capacity, short inner reads, unsupported look-ahead) but not by slice / mmap / range readers",
+        "inconsistencies between two observers of the same quantity that the harness sees directly (e.g. ensure_buffered vs buffer_usage) are logged as panic events, which the contract never accepts",
         "bounded: seeded value families, schedules and read programs (VERIF_SEED); no claim for inputs outside them",
     ]
 
